@@ -180,12 +180,14 @@ def check(case, ctx):
             return ctx.fail("object-count", "%d edges loaded, %d edge lines" % (len(g._edges), len(exp_e)))
         for i, (e, r) in enumerate(zip(g._edges, exp_e)):
             et = r["et"]
-            want_type = ETYPE[et]
+            want_types = (ETYPE[et],)
             if et == "EDGE_SE2" and GT.claims_se2_line(r["ids"][0], r["ids"][1]):
-                want_type = "EdgeVfLoopSE2"  # claimed by the registered partial-claim custom type, wherever the line stands in the file
+                # also claimed by the registered partial-claim custom type; which of the two classes wins is not documented (both carry
+                # the same numbers) - what IS required is that it does not depend on the rest of the file (checked below)
+                want_types = ("EdgeVfLoopSE2", "EdgeOdometry")
                 ctx.event("line-claimed-by-partial-custom-type")
-            if type(e).__name__ != want_type:
-                return ctx.fail("type-mismatch", "edge #%d is %s for line %s %r, expected %s" % (i, type(e).__name__, et, list(r["ids"]), want_type))
+            if type(e).__name__ not in want_types:
+                return ctx.fail("type-mismatch", "edge #%d is %s for line %s %r, expected %s" % (i, type(e).__name__, et, list(r["ids"]), " or ".join(want_types)))
             if list(e.vertex_ids) != list(r["ids"]) or [v.id for v in e.vertices] != list(r["ids"]):
                 return ctx.fail("id-mismatch", "edge #%d ids %r / bound %r, file %r" % (i, e.vertex_ids, [v.id for v in e.vertices], r["ids"]))
             info = np.asarray(e.information, dtype=float)
@@ -247,6 +249,26 @@ def check(case, ctx):
                 return ctx.fail("junk-affects-other-lines", "removing junk/blank lines changed the loaded graph")
             if [r for r in logs2 if r.levelno >= logging.WARNING]:
                 return ctx.fail("warnings", "a file of recognised lines only produced warnings: %r" % [r.getMessage() for r in logs2][:3])
+
+        # ---- a line is parsed the same way wherever it stands: move an EDGE_SE2 line the custom type declines / one it claims to
+        #      the top of the file; every edge line must give an object of the same class in both files
+        se2 = [r for r in exp_e if r["et"] == "EDGE_SE2"]
+        claimed = [r for r in se2 if GT.claims_se2_line(r["ids"][0], r["ids"][1])]
+        declined = [r for r in se2 if not GT.claims_se2_line(r["ids"][0], r["ids"][1])]
+        if claimed and declined:
+            ctx.event("order-independence:claimed-and-declined-EDGE_SE2-lines")
+            classes = []
+            for first in (declined[0], claimed[0]):
+                order = [first] + [r for r in recs if r is not first]
+                txt = "".join(r["text"] + "\n" for r in order)
+                pth = os.path.join(tmp, "reordered.g2o")
+                with open(pth, "w", newline="") as f:
+                    f.write(txt)
+                gq, _ = load_with_log(gs.Graph.from_g2o, pth, custom_edge_types=list(GT.CUSTOM_TYPES_WITH_PARTIAL_CLAIM))
+                classes.append(sorted((tuple(e.vertex_ids), gs.bits(e.information), type(e).__name__) for e in gq._edges))
+            if classes[0] != classes[1]:
+                diff = [(a[0], a[2], b[2]) for a, b in zip(classes[0], classes[1]) if a != b][:3]
+                return ctx.fail("parse-depends-on-line-order", "the class an edge line is loaded as changed when another EDGE_SE2 line was moved to the top of the file: %r" % (diff,))
 
         # ---- history: the loaded objects are independent of later loads - modify every loaded matrix / measurement in
         #      place (what a user re-weighting a loaded graph does), load the same file again, compare with the file
